@@ -105,6 +105,9 @@ def event_core():
     tg = (('!e!', 'tag:e.com,2000:'),)
     out.append(E.stream(E.doc([E.S('v', tag='tag:e.com,2000:t', implicit=(False, False))], explicit=True, version=(1, 1), tags=tg),
                         E.doc(E.seq([E.seq([[E.S('1')]], anchor='a', tag='!l', implicit=False), [('ALIAS', 'a')]]), tags=tg, end_explicit=True)))
+    out.append(E.stream(E.doc([E.S('v', tag='tag:e.com,2000:t', implicit=(False, False))], explicit=True, tags=tg),
+                        E.doc(E.seq([[E.S('w', tag='tag:e.com,2000:t', implicit=(False, False))], [E.S('x', tag='tag:yaml.org,2002:str', implicit=(False, False))]]), explicit=True),
+                        E.doc([E.S('y', tag='!local', implicit=(False, False))], explicit=True, tags=(('!e!', 'tag:other.org,2011:'),))))
     out.append(E.stream(E.doc(E.mapping([(E.seq([[E.S('k')]]), E.mapping([([E.S('a')], [E.S('b', tag='tag:é.com,2000:x', implicit=(False, False))])]))]))))
     return out
 
